@@ -67,7 +67,8 @@ type fctx struct {
 	fi        *funcInfo
 	used      map[string]bool
 	ntemp     int
-	tailParam string // [seq] the parameter standing for a timed tail
+	tailParam string              // [seq] the parameter standing for a timed tail
+	nilErr    map[*ast.Ident]bool // [ext:T20] occurrences of nil that stand for the nil error
 }
 
 func (c *fctx) fresh(prefix string) string {
@@ -173,6 +174,8 @@ func (c *fctx) constTerm(e ast.Expr) (string, bool) {
 			return "true", true
 		}
 		return "false", true
+	case constant.String: // [ext:T20]
+		return c.strConst20(e, constant.StringVal(tv.Value))
 	}
 	return "", false
 }
@@ -257,6 +260,9 @@ func (c *fctx) wrapIf(g gtype, term string) string {
 	if g.k == kUint {
 		return fmt.Sprintf("(wrap %d %s)", g.bits, term)
 	}
+	if g.k == kInt && g.bits > 0 { // [ext:T20] intN under TransSpec.WrapSigned
+		return fmt.Sprintf("(swrap %d %s)", g.bits, term)
+	}
 	return term
 }
 
@@ -285,6 +291,9 @@ func (c *fctx) expr(e ast.Expr, en *env, k func(string) string) string {
 	case *ast.Ident:
 		if x.Name == "nil" {
 			if _, ok := t.info.Uses[x].(*types.Nil); ok {
+				if c.nilErr[x] { // [ext:T20] the nil error (marked by its context: go/types leaves nil untyped)
+					return k("0")
+				}
 				return k("[]")
 			}
 		}
@@ -297,6 +306,9 @@ func (c *fctx) expr(e ast.Expr, en *env, k func(string) string) string {
 				t.fail(x, "pointer %s used as a value", x.Name)
 			}
 			return k(v.name)
+		}
+		if s, ok := c.sentinel20(x, o); ok { // [ext:T20] package-level `var ErrX = errors.New("...")`, never assigned
+			return k(s)
 		}
 		t.fail(x, "identifier %s (not a local variable, parameter or constant)", x.Name)
 	case *ast.SelectorExpr:
@@ -397,6 +409,8 @@ func (c *fctx) binary(x *ast.BinaryExpr, en *env, k func(string) string) string 
 			return fmt.Sprintf("do %s <- (if %s then Ret true else (\n%s\n));;\n%s", v, a, rhs, k(v))
 		})
 	}
+	c.markNil20(x.X, x.Y) // [ext:T20] err == nil
+	c.markNil20(x.Y, x.X)
 	return c.expr(x.X, en, func(a string) string {
 		return c.expr(x.Y, en, func(b string) string {
 			if r, ok := c.arith(x.Op, g, a, b, x.Y, k); ok {
@@ -405,6 +419,9 @@ func (c *fctx) binary(x *ast.BinaryExpr, en *env, k func(string) string) string 
 			bin := func(op string) string { return "(" + a + " " + op + " " + b + ")" }
 			fn := func(f string) string { return "(" + f + " " + a + " " + b + ")" }
 			og := t.exprType(x.X)
+			if c.isNilErr20(x.X) { // [ext:T20]
+				og = gtype{k: kErr}
+			}
 			if og.k == kBool {
 				switch x.Op {
 				case token.EQL:
@@ -412,6 +429,11 @@ func (c *fctx) binary(x *ast.BinaryExpr, en *env, k func(string) string) string 
 				case token.NEQ:
 					return k(fn("xorb"))
 				}
+			} else if og.k == kErr && (x.Op == token.EQL || x.Op == token.NEQ) { // [ext:T20] err == nil, err != ErrX
+				if x.Op == token.EQL {
+					return k(bin("=?"))
+				}
+				return k("(negb " + bin("=?") + ")")
 			} else if og.k == kInt || og.k == kUint || og.k == kElem {
 				switch x.Op {
 				case token.EQL:
@@ -453,10 +475,17 @@ func (c *fctx) arith(op token.Token, g gtype, a, b string, y ast.Expr, k func(st
 		if op == token.REM {
 			pf, mf = "Z.rem", "m_rem"
 		}
+		signedQuo := op == token.QUO && g.k == kInt && g.bits > 0 // [ext:T20] MinIntN / -1 wraps
 		if v, ok := c.constInt(y); ok && constant.Sign(v) != 0 {
+			if signedQuo && constant.Compare(v, token.EQL, constant.MakeInt64(-1)) {
+				return k(c.wrapIf(g, fn(pf))), true
+			}
 			return k(fn(pf)), true
 		}
 		v := c.fresh("v")
+		if signedQuo {
+			return fmt.Sprintf("do %s <- %s %s %s;;\n%s", v, mf, a, b, k(c.wrapIf(g, v))), true
+		}
 		return fmt.Sprintf("do %s <- %s %s %s;;\n%s", v, mf, a, b, k(v)), true
 	case token.AND:
 		return k(fn("Z.land")), true
@@ -514,14 +543,20 @@ func (c *fctx) call(x *ast.CallExpr, en *env, k func([]string) string) string {
 			t.fail(x, "conversion")
 		}
 		to, from := t.exprType(x), t.exprType(x.Args[0])
+		if to.str || from.str { // [ext:T20] string <-> []byte, string(byte)
+			return c.strConv20(x, to, from, en, k)
+		}
 		if !((to.k == kInt || to.k == kUint) && (from.k == kInt || from.k == kUint)) && !(to.k == from.k && to.k != kStruct) {
 			t.fail(x, "conversion from %s to %s", t.info.Types[x.Args[0]].Type, t.info.Types[x].Type)
 		}
-		if to.k == kInt && from.k == kUint && from.bits == 64 {
+		if to.k == kInt && to.bits == 0 && from.k == kUint && from.bits == 64 {
 			t.fail(x, "conversion of a 64-bit unsigned value to a signed integer (overflow is not modelled)")
 		}
 		return c.expr(x.Args[0], en, func(a string) string {
 			if to.k == kUint && !(from.k == kUint && from.bits <= to.bits) {
+				return k([]string{c.wrapIf(to, a)})
+			}
+			if to.k == kInt && to.bits > 0 && signedConvWraps20(to, from) { // [ext:T20]
 				return k([]string{c.wrapIf(to, a)})
 			}
 			return k([]string{a})
@@ -605,24 +640,39 @@ func (c *fctx) call(x *ast.CallExpr, en *env, k func([]string) string) string {
 		fuel = " fuel"
 	}
 	var rv *varInfo
+	recvArg := false // [ext:T20] a value receiver of a named integer type is an ordinary first argument
 	if fi.recv != nil {
 		if recv == nil {
 			t.fail(x, "method expression")
 		}
-		rv = c.structVar(recv, en)
-		if fi.writes {
-			c.checkNoLivePlace(en, x, func(k string) bool { return strings.HasPrefix(k, rv.name+".") }, "call of "+fi.goName) // [seq]
-			for key := range en.shared {
-				if strings.HasPrefix(key, rv.name+".") {
-					t.fail(x, "call of %s, which writes its receiver, while %s may share its array with another variable", fi.goName, key)
+		if fi.recvT.k != kStruct {
+			recvArg = true
+		} else {
+			rv = c.structVar(recv, en)
+			if fi.writes {
+				c.checkNoLivePlace(en, x, func(k string) bool { return strings.HasPrefix(k, rv.name+".") }, "call of "+fi.goName) // [seq]
+				for key := range en.shared {
+					if strings.HasPrefix(key, rv.name+".") {
+						t.fail(x, "call of %s, which writes its receiver, while %s may share its array with another variable", fi.goName, key)
+					}
 				}
 			}
 		}
+	} else if fi.ignoredRecv { // [ext:T20] the callee never mentions its receiver; its expression must be a plain variable
+		if _, ok := ast.Unparen(recv).(*ast.Ident); !ok {
+			t.fail(x, "call of %s through a receiver expression that is not a variable", fi.goName)
+		}
 	}
-	return c.args(x.Args, en, func(vs []string) string {
+	emit := func(rterm string, vs []string) string {
 		app := fi.name + fuel
 		if rv != nil {
 			app += " " + rv.name
+		}
+		if rterm != "" {
+			app += " " + rterm
+		}
+		for _, g := range t.ordered20(fi.greads) { // [ext:T20] package-level state is passed explicitly
+			app += " " + c.globalName20(g, en, x)
 		}
 		for _, v := range vs {
 			app += " " + v
@@ -631,21 +681,31 @@ func (c *fctx) call(x *ast.CallExpr, en *env, k func([]string) string) string {
 		for range fi.results {
 			rs = append(rs, c.fresh("v"))
 		}
-		pat := tuple(rs)
+		var parts []string
 		if rv != nil && fi.writes {
-			if len(rs) == 0 {
-				pat = rv.name
-			} else {
-				pat = "(" + rv.name + ", " + pat + ")"
-			}
-		} else if len(rs) == 0 {
+			parts = append(parts, rv.name)
+		}
+		for _, g := range t.ordered20(fi.gwrites) {
+			parts = append(parts, c.globalName20(g, en, x))
+		}
+		if len(rs) > 0 {
+			parts = append(parts, tuple(rs))
+		}
+		pat := nestPair(parts)
+		if len(parts) == 0 {
 			pat = "_"
 		}
 		if strings.HasPrefix(pat, "(") {
 			pat = "'" + pat
 		}
 		return fmt.Sprintf("do %s <- %s;;\n%s", pat, app, k(rs))
-	})
+	}
+	if recvArg {
+		return c.expr(recv, en, func(r string) string {
+			return c.args(x.Args, en, func(vs []string) string { return emit(r, vs) })
+		})
+	}
+	return c.args(x.Args, en, func(vs []string) string { return emit("", vs) })
 }
 
 // copyCall: copy(dst, src) / copy(dst[a:b], src) with dst a variable or a field; rebinding dst.
